@@ -70,6 +70,52 @@ def boolc(b):
 # ----------------------------------------------------------------------------------------------
 # running the implementation
 # ----------------------------------------------------------------------------------------------
+FD_ENABLED = False      # set by the C01 property: every Jacobian obtained by run_comp is also checked against
+FD_RESULTS = []         # Richardson-extrapolated central differences of the implementation's own compute
+
+
+def _block_err(a, b, add):
+    m = max(float(np.abs(a).max()) if a.size else 0.0, float(np.abs(b).max()) if b.size else 0.0)
+    return (float(np.abs(a - b).max()) if a.size else 0.0) / (m + add)
+
+
+def fd_check(prob, comp, inputs, outputs, J):
+    """implementation-only check of a reported Jacobian: central differences with one Richardson step (error O(h^4)),
+    step relative to each coordinate; per input variable block, scaled as in Float/DRun.v blockerrs_s"""
+    def outs():
+        return np.concatenate([np.asarray(prob.get_val(o), dtype=float).ravel() for o in outputs])
+    rec = {"comp": type(comp).__name__, "errs": {}, "worst": 0.0}
+    blocks = {}
+    with warnings.catch_warnings():
+        warnings.simplefilter("ignore")
+        for name, val in inputs.items():
+            x0 = np.array(val, dtype=float)
+            flat = x0.ravel().copy()
+            bm = float(np.abs(flat).max()) if flat.size else 0.0
+            cols = []
+            scales = []
+            for i in range(flat.size):
+                sc = max(abs(flat[i]), 1e-3 * bm) if bm > 0 else 1.0
+                h = 1e-4 * sc
+                d = []
+                for hh in (h, h / 2):
+                    xp = flat.copy(); xp[i] += hh; prob.set_val(name, xp.reshape(x0.shape)); prob.run_model(); fp = outs()
+                    xm = flat.copy(); xm[i] -= hh; prob.set_val(name, xm.reshape(x0.shape)); prob.run_model(); fm = outs()
+                    d.append((fp - fm) / (2 * hh))
+                cols.append((4 * d[1] - d[0]) / 3)
+                scales.append(sc)
+            prob.set_val(name, x0); prob.run_model()
+            fdJ = np.array(cols).T if cols else np.zeros((0, 0))
+            repJ = np.concatenate([np.asarray(J[(o, name)], dtype=float).reshape(-1, flat.size) for o in outputs], axis=0)
+            blocks[name] = (repJ * np.array(scales)[None, :], fdJ * np.array(scales)[None, :])
+    overall = max([max(float(np.abs(a).max()) if a.size else 0.0, float(np.abs(b).max()) if b.size else 0.0) for a, b in blocks.values()] + [0.0])
+    for name, (a, b) in blocks.items():
+        e = _block_err(a, b, 2.0 ** -17 * overall + 1e-300)
+        rec["errs"][name] = e; rec["worst"] = max(rec["worst"], e)
+    rec["inputs"] = {k: np.asarray(v).tolist() for k, v in inputs.items()}
+    return rec
+
+
 def run_comp(comp, inputs, outputs=None, want_J=True, complex_alloc=False, mode=None):
     """Run one component of the implementation, fed through OpenMDAO's auto IVC (this is the
     'one-component problem' of C01: what an optimiser would receive).
@@ -95,6 +141,8 @@ def run_comp(comp, inputs, outputs=None, want_J=True, complex_alloc=False, mode=
             J = {}
             for (of, w), v in Jd.items():
                 J[(of, w)] = np.atleast_2d(np.array(v))
+            if FD_ENABLED:
+                FD_RESULTS.append(fd_check(prob, comp, inputs, list(outputs), J))
     return outs, J, prob
 
 
